@@ -50,7 +50,7 @@ def check_comparator(fx, rep, rule, key, sy, clo, sb, field, query, params=None)
             return ("cmp3", name, query)
         pr = call(R.READ, sb, mk_field(m, "params_offset"))
         pv = mk_payload(pr, "Ok", "0") if o(("is", pr, "Ok")) else ("lit", "str", "")
-        return ("cmp3", ("tuple", (name, pv)), ("tuple", (query, params)))
+        return ("then", ("cmp3", name, query), ("cmp3", pv, params))
     bad, n = fc.compare_paths(paths, ref, lambda st, out: out[1])
     cb = fx.bodies.get(clo[1])
     if not bad:
